@@ -1,11 +1,12 @@
 (* C01 — Ledger conservation.  Property theorems only.
    total a x = balance - borrowed = available + on hold - borrowed.
-   Proved: how AccountBalances.update and every loan operation move the totals of EVERY symbol (second sentence
-   of the property, and the account side of the first).  C01_partial: the global equation
-   total = initial + fills - fees - interest over whole histories (which also needs the order records to match the
-   account updates of every fill) is validated by the correspondence check and the monitor, not proved. *)
+   Proved: how AccountBalances.update and every loan operation move the totals of EVERY symbol (second sentence of
+   the property), and the global equation total = initial + fills + fees (<= 0) - interest paid, for every symbol, in
+   every state reachable through any operation sequence (first sentence): every operation of the model is a sequence
+   of primitive transactions (Structure.v) and every primitive transaction keeps the ledger (LedgerProofs.v). *)
 From Coq Require Import ZArith QArith List.
-From Basana Require Import Num.DecQ Exchange.Model Exchange.AcctProofs Exchange.StepProofs Exchange.OpProofs.
+From Basana Require Import Num.DecQ Exchange.Model Exchange.AcctProofs Exchange.StepProofs Exchange.OpProofs
+     Exchange.Prims Exchange.Structure Exchange.LedgerProofs.
 Import ListNotations.
 Open Scope Q_scope.
 
@@ -44,6 +45,30 @@ Theorem C01_rejected_loan_ops_change_nothing : forall c s x a s' e,
 Proof. exact create_loan_fail_unchanged. Qed.
 Print Assumptions C01_rejected_loan_ops_change_nothing.
 
+(* the whole-history ledger: in every state reachable from non-negative initial balances, by any sequence of bars,
+   order requests, cancellations, loans, repayments and listings (bars with non-negative volume, volume limit >= 0):
+   balance - borrowed = initial + what all orders exchanged (base and quote amounts of their fills, signed)
+                        + the fees charged to them (<= 0) - the interest paid on loans,     per symbol *)
+Theorem C01_ledger_in_every_reachable_state : forall c initial ops x,
+  cfg_ok c -> ops_ok ops -> (forall kv, In kv initial -> 0 <= snd kv) ->
+  let s := run c (init_st initial) ops in
+  total (s_acct s) x == vget (bal (init_acct initial)) x + osum x s - psum x s.
+Proof. exact ledger_reachable. Qed.
+Print Assumptions C01_ledger_in_every_reachable_state.
+
+(* the structural fact behind it: every operation, accepted or rejected, is a finite sequence of primitive
+   transactions between well-formed states *)
+Theorem C01_every_operation_is_primitive_transactions : forall c s o,
+  cfg_ok c -> op_ok o -> WF s -> WF (fst (step c s o)) /\ prims c s (fst (step c s o)).
+Proof. exact step_prims. Qed.
+Print Assumptions C01_every_operation_is_primitive_transactions.
+
+(* and every primitive transaction keeps the ledger constant *)
+Theorem C01_primitive_transactions_keep_the_ledger : forall c K s s',
+  WF s -> ledger_inv K s -> prim c s s' -> ledger_inv K s'.
+Proof. exact ledger_prim. Qed.
+Print Assumptions C01_primitive_transactions_keep_the_ledger.
+
 Example C01_nonvacuous :
   let k := mkCond 2%positive 10 0%Z 0 (1 # 2) in
   let c := mkCfg [(1%positive, 2%nat); (2%positive, 2%nat)] [] None NoFee InfLiq (Margin 2%positive (Some k) []) in
@@ -51,3 +76,22 @@ Example C01_nonvacuous :
   let s2 := fst (step c s1 (OLoan 1%positive 5)) in
   Qeq_bool (total (s_acct s2) 1%positive) 0 = true /\ Qeq_bool (vget (bor (s_acct s2)) 1%positive) 5 = true.
 Proof. vm_compute. split; reflexivity. Qed.
+
+(* the premises of the ledger theorem are met by a history with a partial fill, a fee and an interest payment, and the
+   three terms of the equation are all non-zero there *)
+Example C01_ledger_nonvacuous :
+  let k := mkCond 2%positive 10 0%Z 0 (1 # 2) in
+  let c := mkCfg [(1%positive, 2%nat); (2%positive, 2%nat)] [] None (PctFee 1 0) (VolShare 25 0)
+                 (Margin 2%positive (Some k) []) in
+  let p := (1%positive, 2%positive) in
+  let ops := [OBar p 60%Z (mkBar 100 100 100 100 10); OLoan 2%positive 50;
+              OCreate (KLimit 100) Buy p 5 false false; OBar p 120%Z (mkBar 100 100 100 100 8);
+              ORepay 0%nat] in
+  let s := run c (init_st [(2%positive, 1000)]) ops in
+  cfg_ok c /\ ops_ok ops /\
+  Qeq_bool (osum 1%positive s) 2 = true /\ Qeq_bool (osum 2%positive s) (-202) = true /\
+  Qeq_bool (psum 2%positive s) 5 = true /\ Qeq_bool (total (s_acct s) 2%positive) (1000 - 202 - 5) = true.
+Proof.
+  cbv zeta. split; [cbn; discriminate|]. split; [repeat constructor; cbn; discriminate|].
+  vm_compute. repeat split; reflexivity.
+Qed.
